@@ -194,6 +194,12 @@ def gen_key(rng, col, rows, kind=None):
             v = some or "1.9.9"
         elif vr == "IS":
             v = some or rng.choice(["0", "1", "7"])
+            # Integer String values need not be in canonical form: leading zeros and a sign are legal
+            r = rng.random()
+            if r < 0.2:
+                v = "0" * rng.choice([1, 2, 7]) + str(v)
+            elif r < 0.3 and not str(v).startswith("-"):
+                v = "+" + str(v)
         else:
             v = some if some else rng.choice([x for x in pool if x])
             if rng.random() < 0.2 and vr in TEXT_VR:
@@ -491,7 +497,9 @@ def evaluate(ctx, specs, queries, fnd, model_check=True):
             if q["route"] == "wire":
                 seen_ds = event.identifier  # decoded once and cached: the object the handler will use
             mkeys, lvl = seen_keys(seen_ds)
-            skeys = [[c, [x.encode() for x in vals]] for c, _, vals in q["keys"]]
+            # an Integer String denotes an integer (the database keeps the integer, not the spelling): PS3.4 matching is
+            # applied to the denoted value, so '+7' and '007' are the key 7
+            skeys = [[c, [(str(int(x)) if VR[c] == "IS" and x.strip().lstrip("+-").isdigit() else x).encode() for x in vals]] for c, _, vals in q["keys"]]
             reqs.append([q["root"], q["op"] != "find", "absent" if lvl is None else str(lvl).encode(), mkeys, skeys])
             prepared.append((q, ident, event, mkeys))
         replies = ctx.lean([["qr.batch", lean_rows, reqs]])[0] if reqs else []
